@@ -82,6 +82,9 @@ def multi_machine_case(runner, r, oc, reqs, pend, rounds, uml=False):
     if r.random() < 0.15:
         models = [dict(kind="uml", backend=r.choice(["uml", "umlcs"]), project=genlib.BLOB, diagram=d, ns_folders=True, dclspc="")
                   for d in ("TestClassDiagram", "ProtocolStack")]
+    if not uml and r.random() < 0.2 and models[0]["kind"] == "sm":
+        models[0] = genlib.with_non_ascii_twins(r, models[0])
+        oc.stat("names_that_agree_in_their_ascii_characters")
     if uml or r.random() < 0.1:
         # one class diagram, mostly synthesised (modelled constructors next to the generated initialising one, operations
         # taken over from realised interfaces, associations): every block once, under its own tag, after every regeneration
